@@ -218,7 +218,7 @@ class PyWorld:
         self.keep = []         # keeps every labelled object alive so that ids stay unique
         self.user_shared = set()   # id(Parameter) handed by the CALLER to a second owner (add_param(p), map_param(p), ...)
         self.taint = set()         # id(ParameterSet) holding a caller-shared object that was edited through another set
-        self.dirty = set()         # id(ParameterSet) holding an object changed by change_fixed_value, cache not yet updated
+        self.dirty = set()         # id(ParameterSet) between change_fixed_value and update_fixed_param_value_cache (protocol)
 
     def get(self, r):
         return self.pmm.global_paramset if r == 'G' else self.sets[r]
@@ -927,11 +927,13 @@ def check_sharing(w, bad):
 
 SHARED_SIG = ('ParameterSet.add_param / ParameterSet(params) / map_param (Parameter object shared by the caller)',
               'views-stale-after-edit-through-the-other-owner')
-STALE_SIG = ('Parameter.change_fixed_value', 'fixed-value-cache-stale-until-update_fixed_param_value_cache')
 
 
 def excuse(w, s):
-    """'[shared]' / '[stale]' when the set is in a state covered by one of the two OPEN known findings"""
+    """'[shared]': the set is in the state of the OPEN finding C04-shared-parameter.  '[stale]': between
+    change_fixed_value and update_fixed_param_value_cache — the documented two-step protocol; the stale value
+    cache in between is expected and not reported, after the update every view must agree again (the set is
+    then checked like any other)"""
     if id(s) in w.taint:
         return '[shared]'
     if id(s) in w.dirty:
@@ -975,8 +977,9 @@ def predicates(ctx, case, w, ref, step, op, err, before):
         if site.endswith('[shared]'):
             site, kind, got = SHARED_SIG[0], SHARED_SIG[1], f'{kind}: {got}'
         elif site.endswith('[stale]'):
-            site, kind, got = STALE_SIG[0], STALE_SIG[1], f'{kind}: {got}'
-        ctx.violation(site if site in ('ParameterSet', 'ParameterModelMapper', SHARED_SIG[0], STALE_SIG[0]) else 'op:' + site, kind,
+            ctx.count('protocol:stale-between-change_fixed_value-and-update')
+            continue
+        ctx.violation(site if site in ('ParameterSet', 'ParameterModelMapper', SHARED_SIG[0]) else 'op:' + site, kind,
                       f'step {step} {op!r}: got {got} want {want}',
                       case={'src': case['src'], 'nz': case.get('nz', False), 'ops': [list(o) for o in case['ops'][:step + 1]]},
                       impl=got, predicate=kind)
@@ -1565,7 +1568,7 @@ def corpus_cases():
                                        ('fix', 0, [(0, 7)]), ('float', 'G', [(1, ('t', 1, 0, 2))]), ('fix', 1, [(0, None)]),
                                        ('setv', 'G', 0, 2), ('copy', 2), ('union', [1, 2]), ('float', 2, [(0, ('t', 1, 0, 3))]),
                                        ('addx', 1, True, 0, 1), ('addx', 1, True, 0, 1), ('addx', 5, True, 0, 1), ('addx', 1, True, 0, 7)]},
-        # OPEN finding C04-change-fixed-value: the two-step protocol change_fixed_value / update_fixed_param_value_cache
+        # the documented two-step protocol change_fixed_value / update_fixed_param_value_cache: all views agree after the update
         {'src': [True, True], 'ops': [('map', fx(0, 5), None, None), ('map', fl(1), [1], ('s', 4)), ('map', fx(2, 3), [0], ('s', 4)),
                                       ('chg', 'G', 0, 9), ('upd', 'G'), ('chg', 'G', 1, 2), ('chg', 'G', 2, 0), ('copy', 'G'),
                                       ('upd', 'G'), ('chg', 0, 2, BIG), ('upd', 0), ('fix', 'G', [(1, None)]), ('chg', 'G', 1, 8),
